@@ -18,7 +18,7 @@ Requirements for EACH of the two changes:
 * It must need something specific to manifest — a particular boundary input, an unusual but legal argument combination, a multi-step sequence of operations, a particular interleaving/fault point — NOT something ordinary use or the first obvious call would expose at once. Prefer subtle wrong answers over crashes.
 * The two changes must be in different functions and have different manifestation conditions.
 * The existing tests must still pass with the change: run the relevant test files (find them with grep under {wt}/tests) like this, making sure the worktree's source is what is imported:
-    cd {wt} && PYTHONPATH={wt}/src /venv/bin/python -m pytest -q -p no:cacheprovider -x -n 4 tests/<relevant files or dirs>
+    cd {wt} && PYTHONPATH={wt}/src /venv/bin/python -m pytest -q -p no:cacheprovider -x {wt}/tests/<relevant files or dirs>   # ABSOLUTE paths; run 2-4 such processes in parallel for speed, no -n
   (check once with `PYTHONPATH={wt}/src /venv/bin/python -c "import cogent3; print(cogent3.__file__)"` that it prints a path under {wt}). Run every test file that imports the module you changed (grep for the module name), not just one. If a test fails, pick a different change — do not edit tests.
 * A demonstration `demo.py`: a short stand-alone program (plain cogent3 API, no test framework needed) that exits 0 on the ORIGINAL code and exits non-zero (assertion failure) WITH your change. Run it both ways to confirm: with the change applied, and after `git -C {wt} stash` (then `git -C {wt} stash pop`). Run it as `PYTHONPATH={wt}/src /venv/bin/python demo.py`.
 
@@ -26,4 +26,4 @@ Deliver, for change k in (1, 2), a directory /tmp/seed-out/{pid}/k/ containing:
   patch.diff   — `git -C {wt} diff` output of ONLY that change (paths relative to the repo root, so it applies with `git apply` in a clean checkout)
   demo.py      — the demonstration
   notes.md     — what the change does, exactly what it needs in order to manifest, which test files you ran (and the pass counts), and the output of demo.py with and without the change.
-Produce change 1, save its files, `git -C {wt} checkout -- .` to restore the worktree, then produce change 2 the same way, and leave the worktree clean at the end. Keep CPU use modest (`-n 4` for pytest). Your final message: a 5-line summary per change.""")
+Produce change 1, save its files, `git -C {wt} checkout -- .` to restore the worktree, then produce change 2 the same way, and leave the worktree clean at the end. Keep CPU use modest (at most 4 pytest processes at a time). Tests needing network (urls) fail in this sandbox regardless - ignore those. Your final message: a 5-line summary per change.""")
